@@ -191,6 +191,23 @@ def check_rest(ctx, P, tx, rx, ms):
             v = simplify(rtb.rvalue(s["rv"]))
             ok = v[0] == "agg" and M.mentions(v[3][1], M.t_call("dp::peripheral::Peripheral::receive_reply")) and M.mentions(v[3][0], M.t_call("increment_cycle_state"))
             ctx.ob("d.accounting", "reply-event-flow", ok, "the reply path must store (cycle_completed = iteration result, peripheral = event of Peripheral::receive_reply), found " + show(v)[:200], rx.loc(b, i))
+    # ---------------- a': what the slot iteration stores --------------------------------------------
+    inc = P.get(CR, "dp::master::DpMaster::<'a>::increment_cycle_state")
+    if inc is None:
+        ctx.ob("anchor", "fn:increment_cycle_state", False, "DpMaster::increment_cycle_state not found")
+    else:
+        gi = GuardAnalysis(inc, P, mem_kill=True, modsets=ms)
+        tbl = {}
+        for rb in inc.return_blocks:
+            for fs in gi.at(rb):
+                r0 = fs.get(("local", 0, None))
+                cs = [vs for k, vs in fs.items() if k[0] == "discr" and show(k[1]).endswith("state.cycle_state")]
+                key = tuple(sorted(r0[1])) if r0 is not None else ("?",)
+                tbl.setdefault(key, set()).update(cs[0][1] if cs and cs[0][0] == "in" else {"?"})
+        want = {(True,): {"CycleCompleted"}, (False,): {"DataExchange"}}
+        ctx.ob("a.progress", "slot-iteration-table", tbl == want,
+               "increment_cycle_state must park the cycle in CycleCompleted exactly when it reports the end of the pass (so that the master's turn ends "
+               "once before the next pass starts); found result -> stored state: %s" % {str(k): sorted(v) for k, v in tbl.items()}, inc.loc(0))
     # ---------------- f: the cycle position belongs to the cycle ------------------------------------
     # a pass visits every peripheral once only if nothing but the slot iteration itself moves the cycle position: who writes it?
     from analysis.query import mut_uses_of_field
@@ -201,6 +218,10 @@ def check_rest(ctx, P, tx, rx, ms):
     ctx.ob("f.who", "writers-of-cycle-state", bool(w) and set(w) <= allowed,
            "the DP cycle position (DpMasterState.cycle_state) is written outside the slot iteration (%s): peripherals can be visited twice or skipped "
            "in one pass" % sorted(set(w) - allowed), "")
+    # the retry guard `retry_count > max_retry_limit` separates "still trying" from "declared offline" only for a limit >= 1: the
+    # builder must keep the limit in 1..=15 (interval proof per setter, shared with C05's H-PARAM support)
+    from rules import C05
+    rule.import_clauses(ctx, "C05", lambda s_: C05.check_builder_ranges(s_, P), as_clause="e.lifecycle")
     # ---------------- e: life-cycle pairing -------------------------------------------------------
     check_lifecycle(ctx, P)
     for f in [f for f in P.crate_fns(CR) if f.module == "dp::peripheral" and f.kind == "assoc"
